@@ -13,6 +13,30 @@ generated (seeded) from: a key profile (which part of the family's range the
 keys come from), a gathered size (number of keys handed in, counted with
 duplicates - the C code switches from quicksort to radix sort above 800), a
 duplicate mode and a partition of the keys into operands of random kinds.
+
+Two further scenario classes vary WHAT an input is, not which keys it holds
+(the statement quantifies over "all its inputs ... sets, the keys of mappings"):
+
+ [G] inputs that are persistent and GHOSTS when multiunion is called.  Sets,
+     Buckets, TreeSets, BTrees are stored through rtc.stubdb (a stated model of
+     a ZODB connection), committed, and then the root is deactivated
+     (_p_deactivate()), every cached node is deactivated, the cache is
+     minimized, the object is first seen through a fresh connection, or (trees)
+     only the leaves are deactivated; multiunion is the first thing that
+     touches them.  They stand alone, first / in the middle / last among
+     in-memory operands of random kinds with overlapping keys, twice in the
+     same call, or next to a second ghost of another kind.
+ [N] inputs that are INTERNAL NODES of a larger container: a leaf (Set /
+     Bucket) of a multi-leaf TreeSet / BTree reached through _firstbucket, the
+     _next chain and __getstate__, or a sub-tree node taken from the state of
+     a tree of three or more levels, handed in on its own (also next to
+     in-memory operands and to another node of the same tree).  The expected
+     keys are the keys of THAT node: read from the node's own state by an
+     independent descent (the leaves' keys concatenated must be the tree's
+     keys, otherwise the tree is not used), never its neighbours'.  The tree
+     is in memory, stored and loaded, stored and every node a ghost, or seen
+     through a fresh connection (nodes are deactivated again before each
+     call).
 """
 import argparse
 import concurrent.futures as cf
@@ -20,6 +44,7 @@ import random
 
 from lib.common import Standin, Failure, write_standin
 from rtc import harness as H
+from rtc import stubdb
 
 KINDS = ("int", "Set", "TreeSet", "Bucket", "BTree", "list", "tuple", "gen", "pyset")
 SIZES_QUICK = (0, 1, 9, 799, 800, 801, 1300, 2600)
@@ -181,6 +206,383 @@ def run_config(args):
     return evals, len(sigs), [(f, n) for f, n in fails.values()], sample
 
 
+# =========================================================================
+# shared by the [G] and [N] classes
+BT_KINDS = ("Set", "Bucket", "TreeSet", "BTree")
+NAMES = {"Set": "S", "TreeSet": "T", "Bucket": "B", "BTree": "R"}
+
+
+def classes(fam, impl, leaf, internal):
+    m = H.family_module(fam)
+    cls = {k: H.get_class(fam, k, impl, leaf, internal) for k in BT_KINDS}
+    mu = getattr(m, "multiunionPy" if impl == "py" else "multiunion")
+    if impl == "c" and mu is getattr(m, "multiunionPy"):
+        raise RuntimeError("C extension for %s not built" % fam)
+    return cls, mu
+
+
+def expr(kind, c, val):
+    """source text of an in-memory operand"""
+    return {"int": "%s", "Set": "S(%s)", "TreeSet": "T(%s)", "Bucket": "B(dict.fromkeys(%s, " + repr(val) + "))",
+            "BTree": "R(dict.fromkeys(%s, " + repr(val) + "))", "list": "%s", "tuple": "tuple(%s)",
+            "gen": "iter(%s)", "pyset": "set(%s)"}[kind] % (c[0] if kind == "int" else c,)
+
+
+def script_head(fam, impl, leaf, internal):
+    sfx = "Py" if impl == "py" else ""
+    return ("from BTrees.%sBTree import multiunion%s as mu, %s\n"
+            "from rtc.stubdb import Storage          # PYTHONPATH must also hold /verif\n"
+            "T.max_leaf_size = R.max_leaf_size = %d; T.max_internal_size = R.max_internal_size = %d\n" % (
+                fam, sfx, ", ".join("%s%s%s as %s" % (fam, k, sfx, NAMES[k]) for k in BT_KINDS), leaf, internal))
+
+
+def mem_operands(rng, prof, own, avoid, n):
+    """n in-memory operands of random kinds holding some of the keys `own` and other keys of the profile outside `avoid`"""
+    ops = []
+    for _ in range(n):
+        c = rng.sample(own, min(len(own), rng.randint(0, 4))) + [k for k in prof(rng, rng.randint(0, 6)) if k not in avoid]
+        kind = rng.choice(KINDS)
+        if kind == "int" and len(c) != 1:
+            kind = "list"
+        if kind in BT_KINDS or kind == "pyset":
+            c = sorted(set(c))
+        ops.append((kind, c))
+    return ops
+
+
+def note_failure(fails, key, make):
+    if key in fails:
+        fails[key][1] += 1
+    else:
+        fails[key] = [make(), 1]
+
+
+# ------------------------------------------------------------ [G] ghost inputs
+GHOST_WAYS = ("deactivate", "sweep", "minimize", "fresh", "leaves")
+GHOST_MIXES = ("alone", "first", "middle", "last", "twice", "two")
+GHOST_SIZES = (1, 5, 40, 330, 900)     # at node sizes 8/4: one leaf, one leaf, two levels, three or more levels, past the 800 switch
+WAY_CODE = {"deactivate": "for o in P: o._p_deactivate()                  # the root only",
+            "sweep": "w.sweep('deactivate')                             # every cached node",
+            "minimize": "w.sweep('minimize')                               # cache.minimize()",
+            "fresh": "r = st.open(); P = [r.get(o._p_oid) for o in P]   # first seen through a fresh connection",
+            "leaves": "w.sweep('deactivate', only=lambda o: type(o) in (S, B) and not any(o is p for p in P))   # the leaves only"}
+
+
+def run_ghost(args):
+    fam, impl, seed, quick = args
+    cls, mu = classes(fam, impl, 8, 4)
+    val = H.values_of(fam)[0]
+    lo, hi = H.extremes(fam)
+    rng = random.Random("ghost-%s-%s-%s" % (seed, fam, impl))
+    profs = profiles(fam)
+    pnames = [p for p in ("full", "extremes", "dense", "topmix", "topbit", "spread24") if p in profs]
+    leafcls = (cls["Set"], cls["Bucket"])
+    evals, sigs, fails, sample, i = 0, set(), {}, None, 0
+    for kind in BT_KINDS:
+        for n in GHOST_SIZES if quick else GHOST_SIZES + (2, 9, 100, 2000):
+            for way in GHOST_WAYS:
+                if way == "leaves" and kind in ("Set", "Bucket"):
+                    continue
+                for mix in GHOST_MIXES:
+                    for rep in range(1 if quick else 3):
+                        i += 1
+                        pname = pnames[i % len(pnames)]
+                        prof = profs[pname]
+                        gkeys = sorted(prof(rng, n))
+                        pers = [(kind, gkeys)]
+                        if mix == "two":
+                            kind2 = rng.choice([k for k in BT_KINDS if k != kind])
+                            pers.append((kind2, sorted(set(rng.sample(gkeys, min(len(gkeys), 3)) + prof(rng, rng.randint(1, 12))))))
+                        mem = mem_operands(rng, prof, gkeys, (), {"alone": 0, "middle": 2}.get(mix, rng.randint(1, 3)))
+                        M = [("m", j) for j in range(len(mem))]
+                        layout = {"alone": [("p", 0)], "first": [("p", 0)] + M, "last": M + [("p", 0)],
+                                  "middle": M[:1] + [("p", 0)] + M[1:], "twice": [("p", 0)] + M + [("p", 0)],
+                                  "two": [("p", 0)] + M + [("p", 1)]}[mix]
+                        exp = sorted({x for _, c in pers + mem for x in c})
+                        gathered = sum(len(pers[j][1]) if w_ == "p" else 1 if mem[j][0] == "int" else len(mem[j][1])
+                                       for w_, j in layout)
+                        # ---- stored, committed, made ghosts
+                        objs = [realise(cls, val, k, c) for k, c in pers]
+                        st = stubdb.Storage()
+                        w = st.open()
+                        for o in objs:
+                            w.add(o)
+                        w.commit()
+                        r = None
+                        if way == "deactivate":
+                            for o in objs:
+                                o._p_deactivate()
+                        elif way == "sweep":
+                            w.sweep("deactivate")
+                        elif way == "minimize":
+                            w.sweep("minimize")
+                        elif way == "fresh":
+                            r = st.open()
+                            objs = [r.get(o._p_oid) for o in objs]
+                        else:
+                            w.sweep("deactivate", only=lambda o: type(o) in leafcls and not any(o is p_ for p_ in objs))
+                        if way == "leaves":
+                            ghost = any(o._p_changed is None for o in w.nodes() if type(o) in leafcls)
+                        else:
+                            ghost = all(o._p_changed is None for o in objs)
+                        real = [objs[j] if w_ == "p" else realise(cls, val, *mem[j]) for w_, j in layout]
+                        evals += 1
+                        try:
+                            res = mu(real)
+                            bad = check(res, cls["Set"], exp, rng, lo, hi)
+                        except Exception as e:
+                            bad = ("raised", "raised %s: %s" % (type(e).__name__, e))
+                        sigs.add((kind, n, way, mix, pname, ghost, tuple(k for k, _ in mem)))
+                        ops_txt = ["%s%s[%d keys]" % ("ghost " if w_ == "p" else "", (pers if w_ == "p" else mem)[j][0],
+                                                       len((pers if w_ == "p" else mem)[j][1])) for w_, j in layout]
+                        if sample is None and kind == "BTree" and n == 40 and way == "fresh" and mix == "middle":
+                            sample = {"family": fam, "impl": impl, "scenario": "G", "way": WAY_CODE[way].split("#")[1].strip(),
+                                      "operands": ops_txt, "ghost_before_call": ghost,
+                                      "result": "%d keys %r .. %r" % (len(exp), exp[0], exp[-1])}
+                        if bad:
+                            key = "multiunion:%s:%s:%s:ghost:%s:%s" % (impl, fam[0], bad[0], kind, way)
+
+                            def make():
+                                script = (script_head(fam, impl, 8, 4) +
+                                          "P = [%s]\nst = Storage(); w = st.open()\nfor o in P: w.add(o)\nw.commit()\n%s\n"
+                                          "M = [%s]\nops = [%s]\nprint([o._p_changed for o in P])          # None: a ghost\n"
+                                          "res = list(mu(ops))\nexp = %r\nprint(res == exp, len(res), len(exp))\n" % (
+                                              ", ".join(expr(k, c, val) for k, c in pers), WAY_CODE[way],
+                                              ", ".join(expr(k, c, val) for k, c in mem),
+                                              ", ".join("%s[%d]" % (w_.upper(), j) for w_, j in layout), exp))
+                                return Failure(
+                                    key=key, desc="%s %s multiunion([%s]), the persistent operands stored, committed and %s "
+                                                  "(ghost before the call: %s), %d keys gathered, profile %s: %s" % (
+                                                      fam, impl, ", ".join(ops_txt), WAY_CODE[way].split("#")[1].strip(), ghost,
+                                                      gathered, pname, bad[1]),
+                                    repro={"family": fam, "impl": impl, "scenario": "ghost", "way": way, "mix": mix,
+                                           "profile": pname, "persistent": [[k, c] for k, c in pers],
+                                           "memory": [[k, c] for k, c in mem], "layout": [[w_, j] for w_, j in layout]},
+                                    script=script)
+                            note_failure(fails, key, make)
+                        del real, objs, w, r, st
+    return evals, len(sigs), [(f, n) for f, n in fails.values()], sample
+
+
+# --------------------------------------------------- [N] internal nodes as inputs
+INNER_SIZES = ((3, 2), (4, 3), (8, 4))
+INNER_N = (7, 20, 60)
+INNER_STATES = ("memory", "stored", "ghost", "fresh")
+
+
+def decompose(t, is_set):
+    """Independent descent over __getstate__ -> (all keys, leaves, subtrees): leaves = [(keys, path)] in key order,
+    subtrees = [(keys, path)] for every interior node below the root.  path = child indexes from the root
+    ('fb': the single leaf a node embeds in its own state)."""
+    leaves, subs = [], []
+
+    def leafkeys(b):
+        data = b.__getstate__()[0]
+        return list(data) if is_set else list(data[0::2])
+
+    def rec(node, path):
+        st = node.__getstate__()
+        if st is None:
+            return []
+        if len(st) == 1:
+            ks = leafkeys(node._firstbucket)
+            leaves.append((ks, path + ("fb",)))
+            return ks
+        out = []
+        for i, kid in enumerate(st[0][0::2]):
+            if type(kid) is type(t):
+                ks = rec(kid, path + (i,))
+                subs.append((ks, path + (i,)))
+            else:
+                ks = leafkeys(kid)
+                leaves.append((ks, path + (i,)))
+            out += ks
+        return out
+
+    return rec(t, ()), leaves, subs
+
+
+def follow(root, path):
+    """the node at `path`: only its ancestors are read"""
+    node = root
+    for i in path:
+        node = node._firstbucket if i == "fb" else node.__getstate__()[0][2 * i]
+    return node
+
+
+def path_expr(path, root="t"):
+    return root + "".join("._firstbucket" if i == "fb" else ".__getstate__()[0][%d]" % (2 * i) for i in path)
+
+
+def run_inner(args):
+    fam, impl, seed, quick = args
+    val = H.values_of(fam)[0]
+    lo, hi = H.extremes(fam)
+    rng = random.Random("inner-%s-%s-%s" % (seed, fam, impl))
+    profs = profiles(fam)
+    pnames = [p for p in ("dense", "full", "extremes", "topmix") if p in profs]
+    evals, sigs, fails, sample, i = 0, set(), {}, None, 0
+    for sizes in INNER_SIZES:
+        cls, mu = classes(fam, impl, *sizes)
+        for kind in ("TreeSet", "BTree"):
+            is_set = kind == "TreeSet"
+            for n in INNER_N if quick else INNER_N + (12, 35, 150):
+                for order in ("asc", "shuffled", "thinned"):
+                    for state in INNER_STATES:
+                        i += 1
+                        pname = pnames[i % len(pnames)]
+                        prof = profs[pname]
+                        ks = sorted(prof(rng, n + (n // 2 if order == "thinned" else 0)))
+                        hist = [("add", k) for k in ks]
+                        if order != "asc":
+                            rng.shuffle(hist)
+                        if order == "thinned":
+                            hist += [("del", k) for k in rng.sample(ks, n // 2)]
+                        t = cls[kind]()
+                        for op, k in hist:
+                            if op == "del":
+                                t.remove(k) if is_set else t.pop(k)
+                            elif is_set:
+                                t.add(k)
+                            else:
+                                t[k] = val
+                        have = sorted(set(ks) - {k for op, k in hist if op == "del"})
+                        allk, leaves, subs = decompose(t, is_set)
+                        if allk != have or len(leaves) < 2:
+                            continue            # not a multi-leaf tree whose leaves add up to its keys: no oracle (C03's business)
+                        avoid = set(have)
+                        st = w = None
+                        root = t
+                        if state != "memory":
+                            st = stubdb.Storage()
+                            w = st.open()
+                            w.add(t)
+                            w.commit()
+                            if state in ("ghost", "fresh"):
+                                # what these states hand out was rebuilt from the stored records: the oracle is read from
+                                # a copy loaded through a connection of its own, and the copy must be a sound tree (a
+                                # non-root node that inlines its only leaf does not survive the round trip: C06 / C08)
+                                copy = st.open().get(t._p_oid)
+                                try:
+                                    H.walk(copy, is_set)
+                                    allk, leaves, subs = decompose(copy, is_set)
+                                except Exception:
+                                    continue
+                                if allk != have or len(leaves) < 2:
+                                    continue
+                                del copy
+                            if state == "fresh":
+                                rd = st.open()
+                                root = rd.get(t._p_oid)
+                            conn = root._p_jar
+
+                        def operand(path):
+                            nd = follow(root, path)
+                            return nd
+
+                        def reset():
+                            if state in ("ghost", "fresh"):
+                                conn.sweep("deactivate")
+
+                        L = len(leaves)
+                        picks = sorted({0, 1, L // 2, L - 2, L - 1})
+                        todo = []               # (node type, position, variant, [paths], expected keys of the nodes)
+                        for j in picks:
+                            pos = "first" if j == 0 else "last" if j == L - 1 else "inner"
+                            todo.append(("leaf", pos, "alone", [leaves[j][1]]))
+                            todo.append(("leaf", pos, "mixed", [leaves[j][1]]))
+                            far = j + 2 if j + 2 < L else j - 2
+                            if 0 <= far < L:
+                                todo.append(("leaf", pos, "pair", [leaves[j][1], leaves[far][1]]))
+                        # Interior nodes of another tree (obtainable only through __getstate__) are NOT offered as
+                        # inputs: they are not containers a user obtains through the API, so the property does not
+                        # speak about them (a first version of this scenario did, and fired on the unchanged
+                        # pure-Python tree, whose non-root nodes iterate to the end of the owning tree's leaf
+                        # chain - a false alarm, corrected here; see DESIGN.md 11.4).
+                        keys_at = dict((p_, k_) for k_, p_ in leaves + subs)
+                        chain = hasattr(follow(root, leaves[0][1]), "_next")
+                        if chain:
+                            todo.append(("leaf", "chain", "next", []))
+                        for ntype, pos, variant, paths in todo:
+                            if variant == "next":
+                                # the leaves as the chain hands them out: each one is an input before anything else reads it
+                                reset()
+                                b = root._firstbucket
+                                steps = []
+                                for j in range(min(L, 6)):
+                                    if b is None:
+                                        break
+                                    steps.append((b, leaves[j][0], "t._firstbucket" + "._next" * j, j))
+                                    evals += 1
+                                    gh = getattr(b, "_p_changed", 0) is None
+                                    try:
+                                        res = mu([b])
+                                        bad = check(res, cls["Set"], leaves[j][0], rng, lo, hi)
+                                    except Exception as e:
+                                        bad = ("raised", "raised %s: %s" % (type(e).__name__, e))
+                                    sigs.add((sizes, kind, n, order, state, "leaf", "chain", j, gh))
+                                    if bad:
+                                        record_inner(fails, fam, impl, sizes, kind, state, hist, val, "leaf", "chain",
+                                                     ["t._firstbucket" + "._next" * j], [], leaves[j][0], bad, gh, pname)
+                                        break
+                                    b = b._next
+                                continue
+                            own = [x for p_ in paths for x in keys_at[p_]]
+                            mem = mem_operands(rng, prof, own, avoid, 2) if variant == "mixed" else []
+                            exp = sorted(set(own) | {x for _, c in mem for x in c})
+                            reset()
+                            nodes = [operand(p_) for p_ in paths]
+                            gh = all(getattr(nd, "_p_changed", 0) is None for nd in nodes)
+                            real = [realise(cls, val, *m_) for m_ in mem[:1]] + nodes + [realise(cls, val, *m_) for m_ in mem[1:]]
+                            evals += 1
+                            try:
+                                res = mu(real)
+                                bad = check(res, cls["Set"], exp, rng, lo, hi)
+                            except Exception as e:
+                                bad = ("raised", "raised %s: %s" % (type(e).__name__, e))
+                            sigs.add((sizes, kind, n, order, state, ntype, pos, variant, len(own), gh))
+                            if sample is None and ntype == "subtree" and state == "memory" and variant == "alone" and pos == "inner":
+                                sample = {"family": fam, "impl": impl, "scenario": "N", "tree": "%s of %d keys at node sizes %s, %d leaves" % (
+                                              kind, len(have), list(sizes), L), "input": path_expr(paths[0]),
+                                          "expected": "%d keys %r .. %r (of the tree's %r .. %r)" % (len(own), own[0], own[-1], have[0], have[-1])}
+                            if bad:
+                                record_inner(fails, fam, impl, sizes, kind, state, hist, val, ntype, pos,
+                                             [path_expr(p_) for p_ in paths], mem, exp, bad, gh, pname)
+                            del nodes, real
+    return evals, len(sigs), [(f, n) for f, n in fails.values()], sample
+
+
+def record_inner(fails, fam, impl, sizes, kind, state, hist, val, ntype, pos, exprs, mem, exp, bad, ghost, pname):
+    key = "multiunion:%s:%s:%s:inner:%s:%s:%s" % (impl, fam[0], bad[0], ntype, kind, state)
+
+    def make():
+        c = NAMES[kind]
+        build = "t = %s()\nfor op, k in %r:\n    %s\n" % (
+            c, [(o, k) for o, k in hist],
+            "t.add(k) if op == 'add' else t.remove(k)" if kind == "TreeSet" else
+            "t.__setitem__(k, %r) if op == 'add' else t.pop(k)" % (val,))
+        store = {"memory": "", "stored": "st = Storage(); w = st.open(); w.add(t); w.commit()\n",
+                 "ghost": "st = Storage(); w = st.open(); w.add(t); w.commit(); w.sweep('deactivate')\n",
+                 "fresh": "st = Storage(); w = st.open(); w.add(t); w.commit(); t = st.open().get(t._p_oid)\n"}[state]
+        ops = [expr(k, c_, val) for k, c_ in mem[:1]] + exprs + [expr(k, c_, val) for k, c_ in mem[1:]]
+        script = (script_head(fam, impl, *sizes) + build + store +
+                  "ops = [%s]\nres = list(mu(ops))\nexp = %r\nprint(res == exp, res, exp)\n" % (", ".join(ops), exp))
+        return Failure(
+            key=key, desc="%s %s multiunion([%s]) where t is a %s of %d keys at node sizes %s, %s (%s %s node; ghost before "
+                          "the call: %s), profile %s: %s" % (fam, impl, ", ".join(ops)[:300], kind,
+                                                             len({k for o, k in hist}) - sum(1 for o, k in hist if o == "del"),
+                                                             list(sizes), state, pos, ntype, ghost, pname, bad[1]),
+            repro={"family": fam, "impl": impl, "scenario": "inner", "node": ntype, "position": pos, "state": state,
+                   "sizes": list(sizes), "history": [[o, k] for o, k in hist], "inputs": exprs,
+                   "memory": [[k, c_] for k, c_ in mem], "expected": exp},
+            script=script)
+    note_failure(fails, key, make)
+
+
+def run_job(job):
+    return globals()[job[0]](job[1])
+
+
 def main():
     ap = argparse.ArgumentParser()
     ap.add_argument("--out")
@@ -192,21 +594,37 @@ def main():
         bound="per integer-key family (%s) and implementation: key profiles {dense, spread over 2/3/(5) bytes, full range, "
               "both extremes, all-top-bit, straddling the top-bit flip} x gathered sizes %s x {duplicate-free, with "
               "duplicates} x partitions {shuffled, ascending runs, runs sharing their boundary key} into 0..12 operands of "
-              "random kind among %s (trees at node sizes 8/4), seeded" % (
-                  ",".join(fams), list(SIZES_QUICK if quick else SIZES_QUICK + (2, 100, 802, 5000, 20000)), "/".join(KINDS)),
+              "random kind among %s (trees at node sizes 8/4), seeded; PLUS [G] persistent inputs that are ghosts at the "
+              "call (rtc.stubdb, a model of a ZODB connection): Set / Bucket / TreeSet / BTree of %s keys stored, committed and "
+              "{root deactivated, every cached node deactivated, cache minimized, first seen through a fresh connection, "
+              "(trees) only the leaves deactivated} x {alone, first, in the middle, last among 1..3 in-memory operands of "
+              "random kind with overlapping keys, twice in one call, with a second ghost of another kind}, key profiles "
+              "rotating; PLUS [N] internal nodes as inputs: TreeSet / BTree of %s keys at node sizes %s filled ascending / "
+              "shuffled / shuffled then thinned by a third, tree in memory / stored and loaded / stored and every node a ghost "
+              "/ seen through a fresh connection; inputs: leaves (first, second, middle, last but one, last, reached through "
+              "__getstate__; the first 6 through _firstbucket and _next) alone, between two in-memory operands, with the leaf "
+              "two places away, and up to 6 sub-tree nodes taken from the state of trees of >= 3 levels alone and between two "
+              "in-memory operands; expected = that node's own keys by independent descent" % (
+                  ",".join(fams), list(SIZES_QUICK if quick else SIZES_QUICK + (2, 100, 802, 5000, 20000)), "/".join(KINDS),
+                  list(GHOST_SIZES if quick else GHOST_SIZES + (2, 9, 100, 2000)),
+                  list(INNER_N if quick else INNER_N + (12, 35, 150)), list(map(list, INNER_SIZES))),
         rule="case = one multiunion call and its contract (kind, keys == sorted(set(inputs)), len, membership probes incl. "
              "extremes and neighbours, 4 range queries, minKey/maxKey, add of a new key); distinct non-trivial = distinct "
-             "(profile, duplicate mode, partition, operand kinds and sizes) with >= 2 non-empty operands",
+             "(profile, duplicate mode, partition, operand kinds and sizes) with >= 2 non-empty operands; [G] distinct "
+             "(kind, size, way, mix, profile, ghost-before-call, in-memory kinds); [N] distinct (node sizes, kind, size, fill "
+             "order, state, node type, position, variant, node size, ghost-before-call)",
         exhaustive=False,
         functions=["multiunion_m", "sort_int_nodups", "quicksort", "radixsort_int", "uniq", "bucket_append",
                    "_base.multiunion (run-time)"])
-    jobs = [(fam, impl, H.seed(), quick) for impl in ("py", "c") for fam in fams]
+    # every job sets the node sizes it needs itself (H.get_class); results come back in job order
+    jobs = [(fn, (fam, impl, H.seed(), quick)) for fn in ("run_inner", "run_ghost", "run_config")
+            for impl in ("py", "c") for fam in fams]
     merged = {}
     with cf.ProcessPoolExecutor(max_workers=min(16, len(jobs) or 1)) as ex:
-        for (fam, impl, _, _), (ev, nd, fails, sample) in zip(jobs, ex.map(run_config, jobs)):
+        for (fn, (fam, impl, _, _)), (ev, nd, fails, sample) in zip(jobs, ex.map(run_job, jobs)):
             s.evaluations += ev
             s.distinct_nontrivial += nd
-            if sample and fam == fams[-1]:           # one measured case per implementation
+            if sample and fam == fams[-1]:           # one measured case per class and implementation
                 s.samples.append(sample)
             for f, n in fails:
                 merged.setdefault(f.key, (f, []))[1].append("%s: %d cases" % (fam, n))
